@@ -34,14 +34,13 @@ theorem specHeader_chkLen (env : Env) (i : Inst) (idx orig bs : Nat) (p : Bytes)
 /-- (b) wire format of everything `encode` returns. -/
 theorem encode_wire (env : Env) (be : Backend) (i : Inst) (data : Bytes) (frags : List Bytes)
     {bsOK : Nat → Prop} (hbe : EncodeOK be i.k i.m bsOK) (hbs : bsOK (blockSize i data.length))
-    (hlen : data.length < 2 ^ 31)
     (h : encode env be i data = .ok frags) :
     frags.length = i.k + i.m ∧
     (∀ f ∈ frags, f.length = 80 + blockSize i data.length) ∧
     (∀ idx (hi : idx < frags.length), ∃ p : Bytes, p.length = blockSize i data.length ∧
         frags[idx] = (specHeader env i idx data.length (blockSize i data.length) p).bytes ++ p ∧
         (idx < i.k → p = slice data (blockSize i data.length) idx)) := by
-  obtain ⟨par, hpl, hpe, hf⟩ := encode_spec env be i data frags hbe hbs hlen h
+  obtain ⟨par, hpl, hpe, hf⟩ := encode_spec env be i data frags hbe hbs h
   generalize blockSize i data.length = bs at *
   have hlenAll : (splitLoop i.k bs data ++ par).length = i.k + i.m := by
     simp [splitLoop_length, hpl]
